@@ -85,9 +85,9 @@ PROPS = {
         "extra_props": ["C01Reach", "C03History", "ReachAll", "FullSys", "FullSysExample"],
         "streams": [{"name": "ledger", "quick": 160, "thorough": 1600}, {"name": "sync", "quick": 64, "thorough": 800}],
         "rule": LEDGER_RULE + " The `snap` line dumps, canonically sorted: tree hashes, hashes in the stable-memory block cache, every cached tx out with value/address/height/reference count, per-block added and removed outpoints per address, announced headers by hash and by height, cached and recomputed tip depths.",
-        "explanation": "theorems for every reachable state (no mid-block pause): block-cache hashes = tree hashes (Nodup, same length); keys of the per-block delta maps = tree hashes and their content = the blocks' projections; a tx-out entry exists iff referenced, count = number of references, content = true output; every outpoint a later query / fee computation / removal looks up is present (remove never fails); cached tip depths = recomputed, also after upgrade; announced headers: the two maps agree, none is a tree block, all heights > stable height after a pop, max height = maximum.",
+        "explanation": "theorems for every reachable state (paused ones included since Props/ReachAll): block-cache hashes = tree hashes (Nodup, same length); keys of the per-block delta maps = tree hashes and their content = the blocks' projections; a tx-out entry exists iff referenced, count = number of references, content = true output; every outpoint a later query / fee computation / removal looks up is present (remove never fails); cached tip depths = recomputed, also after upgrade; announced headers: the two maps agree, none is a tree block, all heights > stable height after a pop, max height = maximum.",
         "technique": "Lean 4 invariant lifted to all reachable states of the op transition system (init, push, ingest, set_config, upgrade, announce) + differential correspondence of the full bookkeeping snapshot after every step",
-        "level_text": "Machine-checked exactness of the bookkeeping for all histories without a mid-block pause; the snapshot hook compares every structure with the model after each generated op (incl. discarded forks at different depths, shared transactions, upgrades).",
+        "level_text": "Machine-checked exactness of the bookkeeping for every message history, paused states included (Props/ReachAll.bookkeeping_exact, FullSys.c20_bookkeeping_exact); the snapshot hook compares every structure with the model after each generated op (incl. discarded forks at different depths, shared transactions, upgrades).",
         "level_note": "'Memory stays proportional' is represented by its logical content (entries = tree requirements). Pushes are the direct feed with domain hypotheses (fresh hash, parent in tree, transaction-valid, unique txids).",
         "assumptions": [],
     },
@@ -102,8 +102,8 @@ PROPS = {
                        "true value, height of its block on that chain, heights non-increasing, tip = last main-chain block; the same for any root-path prefix (min_confirmations, page tips). Spec line `ledgerat` replays the ledger "
                        "at the tip the implementation names, on every generated state.",
         "technique": "Lean 4 refinement proof (global invariant relating stable structures and unstable caches to a ghost history; query = ledger replay) + differential correspondence with ledger-replay oracle lines",
-        "level_text": "Machine-checked: Inv => answer = ledger (Props/C01), Inv established by init and preserved by push / ingestion+pop for all trees, transactions and budgets that do not pause mid-block; tie by the ledger and sync streams.",
-        "level_note": "Hypotheses made explicit: transaction-valid blocks, txid determines the transaction, no txid repeated along a chain (BIP34), stable height <= 2^32 for the ordering part. States in the middle of a sliced ingestion are covered by C08's theorems + the streams (queries at every pause), not by Inv. Page requests with an offset are covered by C06.",
+        "level_text": "Machine-checked for EVERY MESSAGE HISTORY (heartbeats with any budgets incl. pauses in the middle of a block, replies of any kind, calls, set_config, upgrades): the answer of unfiltered get_utxos is the ledger of stable chain ++ heaviest branch (permutation, distinct outpoints, heights non-increasing, tip = tip of get_blockchain_info) - FullSys.c01_getUtxos_unfiltered over fullReachable_inv; blocks, request addresses and their derived attributes are decoded by the model itself; tie by the ledger and sync streams.",
+        "level_note": "Environment assumption Trusted: a block that passes the canister's own validation extends a transaction-valid, txid-unique chain with a fresh hash (what proof of work gives the canister). Explicit range hypothesis: stable height <= 2^32 for the ordering part (model heights are unbounded Nat).",
         "assumptions": ["Address::from_script and txid computation are library functions (given)"],
     },
     "C05": {
